@@ -20,6 +20,14 @@ What is tied, on every run:
   2. with the extension absent, every expression kind that has a `_frisky_layer` declines
      (ImportError / NotImplementedError only) and `x.__dask_graph__()` / `collect_task_records(x)` fall back
      to the Python `_layer()` and compute NumPy's values.
+  3. "declines instead of emitting a different graph": for every lowered node, the records of the layer the records walk
+     then uses (the generic GraphRecordsLayer adapter, or the pure-Python side of FusedBlockwiseLayer) define exactly the
+     keys of the node's Python `_layer()` (plus `<key>-subN` helpers) with the same external dependencies per key and
+     carry no graph node in their arguments (harness.props_ext.c21_nested.layer_fidelity), and the collection's records
+     execute to the values of its dask graph.  Nodes come from the catalogue, from seeded random programs and from the
+     container cases of harness.props_ext.c21_nested (dask objects nested in list / tuple / dict arguments and keyword
+     arguments of map_blocks / blockwise / map_overlap / apply_gufunc / from_delayed / store: the variants the native
+     BlockwiseLayer declines with "dask collection in a keyword argument" / "… in a literal argument").
 """
 from __future__ import annotations
 
@@ -647,6 +655,162 @@ def check_python_side_layer(ctx, case, node, cname, layer):
                  "a `_frisky_layer` emits other keys/dependencies than the expression's Python _layer()")
 
 
+def adapter_fidelity(ctx, case, node, count=True):
+    """the records the walk emits for this node (generic adapter when the native layer declines / is absent) vs `_layer()`"""
+    from harness.props_ext import c21_nested as CN
+
+    cname = f"{type(node).__module__}.{type(node).__name__}"
+    try:
+        fails, how = CN.layer_fidelity(node)
+    except Exception as e:
+        ctx.notes["adapter_fidelity_raised"] = ctx.notes.get("adapter_fidelity_raised", 0) + 1
+        ctx.notes.setdefault("adapter_fidelity_raised_example", f"{cname}: {type(e).__name__}: {str(e)[:120]}")
+        return []
+    if count:
+        ctx.count(("adapter", type(node).__name__, how.split(":")[0][:40]))
+    for sig, detail in fails:
+        if count:
+            ctx.fail(sig, dict(case, node=cname), detail)
+    return fails
+
+
+def records_values(ctx, case, y, recs, ref):
+    """the collection's records execute (flat arguments, declared dependencies only) to the reference values"""
+    from dask.core import flatten
+    from harness.props.C21 import exec_records
+    from harness.props_ext import c21_nested as CN
+
+    values, problems, _ = exec_records(recs, None)
+    if problems:
+        ctx.fail("frisky:records-do-not-execute:" + problems[0][0], dict(case, problem=problems[0][1][:200]),
+                 "the records of collect_task_records(x) do not execute: " + problems[0][1][:200])
+        return
+    if ref is None:
+        return
+    try:
+        keys = [str(CN._norm(k)) for k in flatten(y.__dask_keys__())]
+        got = CN._blocks_in_order(y, values, keys)
+    except Exception as e:
+        ctx.fail("frisky:records-output-keys", dict(case, error=repr(e)[:200]), "the records do not define / assemble the collection's output keys")
+        return
+    ref = np.asarray(ref)
+    if np.asarray(got).shape != ref.shape or not np.allclose(got, ref, equal_nan=True):
+        ctx.fail("frisky:records-values", dict(case, got=np.asarray(got).ravel()[:8].tolist(), want=ref.ravel()[:8].tolist()),
+                 "the records of collect_task_records(x) compute other values than NumPy")
+
+
+def _adapter_source_nodes(source):
+    """the lowered nodes of a replayable source: a container case or {prog, optimize}"""
+    import dask
+    from harness import programs
+    from harness.props_ext import c21_nested as CN
+
+    with dask.config.set({"array.optimize-graph": source["optimize"]}):
+        if source.get("kind") == "container":
+            y = CN.build_container(source)[source["roots"][0]]
+        else:
+            env = programs.run_da_ext(source["prog"])
+            y = env[source["prog"][-1]["out"]]
+        return y, walk_exprs(y._lowered_expr)
+
+
+def adapter_source(ctx, source, count=True):
+    """[(sig, detail, node class)] over all lowered nodes of the source; construction problems are not this property's"""
+    try:
+        y, nodes = _adapter_source_nodes(source)
+    except Exception:
+        ctx.notes["adapter_source_not_built"] = ctx.notes.get("adapter_source_not_built", 0) + 1
+        return None
+    out = []
+    for n in nodes:
+        for sig, detail in adapter_fidelity(ctx, {}, n, count=False):
+            out.append((sig, detail, f"{type(n).__module__}.{type(n).__name__}"))
+        if count:
+            ctx.count(("adapter", type(n).__name__, source.get("api", "program"), source["optimize"]))
+    return out
+
+
+def adapter_stream(ctx):
+    """layer fidelity + record values over container cases (enumerated grid + random) and seeded random programs"""
+    import time
+    import warnings
+
+    import dask
+    from harness import programs
+    from harness.props import C21
+    from harness.props_ext import c21_nested as CN
+
+    rng = ctx.rng
+    t0 = time.time()
+    budget = ctx.scale(16, 150)
+    reported = {}
+
+    def report(source, fails):
+        sigs = tuple(sorted({s for s, _, _ in fails}))
+        reported[sigs] = reported.get(sigs, 0) + 1
+        if reported[sigs] > 3:
+            return
+        for sig in sigs:
+            small = source
+            if source.get("kind") == "container":
+                def still(c, sig=sig):
+                    f = adapter_source(ctx, c, count=False)
+                    return bool(f) and any(s == sig for s, _, _ in f)
+
+                try:
+                    small = CN.shrink_container(source, still)
+                except Exception:
+                    small = source
+            f2 = adapter_source(ctx, small, count=False) or fails
+            hit = next(((d, n) for s, d, n in f2 if s == sig), None) or next((d, n) for s, d, n in fails if s == sig)
+            ctx.fail(sig, {"kind": "adapter", "source": {k: v for k, v in small.items() if k != "grid"}, "node": hit[1]}, hit[0])
+
+    with warnings.catch_warnings():
+        warnings.simplefilter("ignore")
+        cases = CN.container_grid(rng, full=ctx.tier != "quick")
+        n_c = n_p = 0
+        it = iter(cases)
+        while time.time() - t0 < budget * 0.6:
+            case = next(it, None)
+            if case is None:
+                if n_c >= len(cases) + ctx.scale(250, 10000):
+                    break
+                case = CN.random_container(rng)
+            n_c += 1
+            case = dict(case, roots=[case["roots"][0] if case["roots"][0] in ("y", "core") else "y"], history="group")
+            fails = adapter_source(ctx, case)
+            if fails:
+                report(case, fails)
+                continue
+            # values: the collection's records vs its dask graph (the C21 executor)
+            vf = C21.run_case(ctx, case, count=False)
+            if vf and any(sig.startswith("records-path-raises:collection-meta-raises") for sig, _ in vf):
+                # the collection's own metadata raises before any layer is asked for records: C21's finding, not a layer's
+                ctx.notes["collection_meta_raises(reported by C21)"] = ctx.notes.get("collection_meta_raises(reported by C21)", 0) + 1
+                vf = []
+            for sig, detail in (vf or [])[:1]:
+                reported[(sig,)] = reported.get((sig,), 0) + 1
+                if reported[(sig,)] <= 3:
+                    ctx.fail("frisky:adapter-" + sig, {"kind": "adapter-values", "source": {k: v for k, v in case.items() if k != "grid"}}, detail)
+        while time.time() - t0 < budget and n_p < ctx.scale(120, 5000):
+            n_p += 1
+            prog, _ = programs.gen_clean_program2(rng, rng.randint(2, 5))
+            for opt in (True, False):
+                src = {"prog": prog, "optimize": opt}
+                fails = adapter_source(ctx, src)
+                if fails:
+                    def still(p, sig=fails[0][0], opt=opt):
+                        f = adapter_source(ctx, {"prog": p, "optimize": opt}, count=False)
+                        return bool(f) and any(s == sig for s, _, _ in f)
+
+                    try:
+                        src = {"prog": programs.shrink(prog, still), "optimize": opt}
+                    except Exception:
+                        pass
+                    report(src, adapter_source(ctx, src, count=False) or fails)
+    ctx.notes["adapter_stream"] = f"{n_c} container cases ({len(cases)} enumerated) + {n_p} random programs x optimize on/off in {time.time() - t0:.1f}s"
+
+
 def declines(ctx):
     """Without the extension every `_frisky_layer` declines and the Python path serves the graph."""
     from dask_array._frisky import collect as FC
@@ -680,6 +844,7 @@ def declines(ctx):
                     ctx.fail("frisky:lowering-raises", dict(case, error=repr(e), stage=lowered_from), "lowering raises")
                     continue
                 for n in walk_exprs(root_e):
+                    adapter_fidelity(ctx, {"kind": "declines", "program": label, "stage": lowered_from}, n)
                     mk = getattr(n, "_frisky_layer", None)
                     if mk is None:
                         continue
@@ -715,6 +880,7 @@ def declines(ctx):
             try:
                 recs = FC.collect_task_records(y)
                 ctx.count(("records", label, "ok" if recs else "empty"))
+                records_values(ctx, case, y, recs, ref)
             except NotImplementedError:
                 ctx.count(("records", label, "whole-graph-fallback"))
             except Exception as e:
@@ -790,7 +956,10 @@ def run(ctx, replay=None):
         "kernels: exhaustive small domain (all chunkings of n ≤ 4 with zero-width chunks, ≤ 3 parts; partition_all for "
         "n ≤ 8 × size ≤ 10) + seeded random incl. values up to 2^40 and totals that differ (malformed stream); distinct = "
         "(family, side, output prefix, size class); declines: a fixed catalogue of programs covering the expression kinds "
-        "with a `_frisky_layer`; distinct = (node class, outcome)"
+        "with a `_frisky_layer`; distinct = (node class, outcome); adapter: every lowered node of the catalogue, of the container cases of "
+        "harness.props_ext.c21_nested (every container skeleton x dask leaf kind enumerated + seeded random) and of seeded random programs "
+        "(optimize-graph on/off): records of the layer the walk uses vs the node's _layer(): keys, external dependencies, flat arguments; "
+        "distinct = (node class, which layer, api, optimize)"
     )
     ctx.assumptions += [
         "PARTIAL: `dask_array._rust` cannot be built offline; the #[pymethods]/expand() code (cartesian products, key assembly, "
@@ -833,6 +1002,14 @@ def run(ctx, replay=None):
                 replay_requests(ctx, R, [case["request"]], {case["request"]: case.get("python")})
             elif case is not None and case.get("kind") == "declines":
                 declines(ctx)
+            elif case is not None and case.get("kind") == "adapter":
+                for sig, detail, node in adapter_source(ctx, case["source"]) or []:
+                    ctx.fail(sig, dict(case, node=node), detail)
+            elif case is not None and case.get("kind") == "adapter-values":
+                from harness.props import C21
+
+                for sig, detail in C21.run_case(ctx, case["source"], count=False) or []:
+                    ctx.fail("frisky:adapter-" + sig, case, detail)
             else:
                 replay_requests(ctx, R, [d["request"] for d in replay.get("disagreements", [])],
                                 {d["request"]: d["impl"] for d in replay.get("disagreements", [])})
@@ -843,6 +1020,8 @@ def run(ctx, replay=None):
         ctx.extra["exhaustive_domain"] = "old_to_new kernels: all pairs of chunkings of n ≤ 4 (zero-width, ≤ 3 parts); partition_all: n ≤ 8 × size ≤ 10"
         kernel_corr(ctx, R, have)
         declines(ctx)
+        if not ctx.extra.get("native_extension_importable"):
+            adapter_stream(ctx)
         if ctx.disagreements:
             targeted(ctx, R)
     finally:
